@@ -1198,6 +1198,90 @@ theorem vacuum_symmetric (cut : Cut) (box : Box K) (vac : K) :
     · simp [vacuumBox, setDiag, cutIndex, unitV, M3.row, V3.get, C05.V3.add_def, C05.V3.sub_def, V3.smul]
       ring
 
+/-! ### vacuum and the relative coordinates (cut vector c of a cell whose a, b have no z component) -/
+
+/-- in a cell whose first two vectors have no z component the third relative coordinate is the z distance to
+    the origin in units of the third vector's z component. -/
+theorem cartToRel_z_of_flat (box : Box K) (p : V3 K) (ha : box.vects.r0.z = 0) (hb : box.vects.r1.z = 0)
+    (hdet : M3.det box.vects ≠ 0) :
+    (Box.cartToRel box p).z = (p.z - box.origin.z) / box.vects.r2.z := by
+  obtain ⟨⟨⟨a0, a1, a2⟩, ⟨b0, b1, b2⟩, ⟨c0, c1, c2⟩⟩, ⟨o0, o1, o2⟩⟩ := box
+  obtain ⟨p0, p1, p2⟩ := p
+  simp only at ha hb
+  subst ha hb
+  have e : M3.det (⟨⟨a0, a1, 0⟩, ⟨b0, b1, 0⟩, ⟨c0, c1, c2⟩⟩ : M3 K) = (a0 * b1 - a1 * b0) * c2 := by
+    simp only [M3.det, V3.dot, V3.cross]; ring
+  have hd : (a0 * b1 - a1 * b0) * c2 ≠ 0 := by rw [← e]; exact hdet
+  have h1 : a0 * b1 - a1 * b0 ≠ 0 := left_ne_zero_of_mul hd
+  have h2 : c2 ≠ 0 := right_ne_zero_of_mul hd
+  show V3.dot _ _ = _
+  simp only [Box.recip, M3.inv, M3.transpose, e, V3.cross, V3.dot, C05.V3.sub_def]
+  generalize a0 * b1 - a1 * b0 = D at *
+  field_simp
+  ring
+
+/-- **vacuum, scaled coordinate across the cut** (cut vector c; in-plane vectors without a component along the
+    cut): `s_c' = (s_c w + vac/2) / (w + vac)`. -/
+theorem vacuum_rel_cut_c (box : Box K) (v : K) (p : V3 K) (ha : box.vects.r0.z = 0) (hb : box.vects.r1.z = 0)
+    (hdet : M3.det box.vects ≠ 0) (hdet' : M3.det (vacuumBox .c box v).vects ≠ 0) :
+    (Box.cartToRel (vacuumBox .c box v) p).z
+      = ((Box.cartToRel box p).z * box.vects.r2.z + v / 2) / (box.vects.r2.z + v) := by
+  rw [cartToRel_z_of_flat box p ha hb hdet, cartToRel_z_of_flat (vacuumBox .c box v) p ha hb hdet']
+  obtain ⟨⟨⟨a0, a1, a2⟩, ⟨b0, b1, b2⟩, ⟨c0, c1, c2⟩⟩, ⟨o0, o1, o2⟩⟩ := box
+  simp only at ha hb
+  subst ha hb
+  have e : M3.det (⟨⟨a0, a1, 0⟩, ⟨b0, b1, 0⟩, ⟨c0, c1, c2⟩⟩ : M3 K) = (a0 * b1 - a1 * b0) * c2 := by
+    simp only [M3.det, V3.dot, V3.cross]; ring
+  have h2 : c2 ≠ 0 := by
+    intro h; apply hdet; rw [e, h, mul_zero]
+  simp only [vacuumBox, setDiag, cutIndex, unitV, C05.V3.sub_def, V3.smul]
+  norm_num
+  field_simp
+  ring
+
+
+/-- the slab stays strictly inside across the cut: for `0 ≤ s_c < 1`, `w > 0`, `vac ≥ 0` the new coordinate is in
+    `[0, 1)`, and in `(0, 1)` as soon as `vac > 0`. -/
+theorem vacuum_rel_cut_bounds (s w v : K) (hs0 : 0 ≤ s) (hs1 : s < 1) (hw : 0 < w) (hv : 0 ≤ v) :
+    0 ≤ (s * w + v / 2) / (w + v) ∧ (s * w + v / 2) / (w + v) < 1 ∧ (0 < v → 0 < (s * w + v / 2) / (w + v)) := by
+  have hwv : 0 < w + v := by linarith
+  have hsw : 0 ≤ s * w := mul_nonneg hs0 hw.le
+  refine ⟨div_nonneg (by linarith) hwv.le, ?_, fun hv' => div_pos (by linarith) hwv⟩
+  rw [div_lt_one hwv]
+  nlinarith
+
+/-- **vacuum with a tilted cut vector**: the Cartesian positions do not change, so the in-plane relative
+    coordinates `s_a, s_b` move by exactly `(s_c - s_c')` times the in-plane part of the cut vector expressed in
+    the in-plane vectors: `(s_a' - s_a) a + (s_b' - s_b) b = (s_c - s_c') c` in both in-plane components.  They stay
+    put iff the cut vector is not tilted (or `s_c' = s_c`); otherwise an atom can leave `[0, 1)` in a periodic
+    in-plane direction — by a whole in-plane period it is still the same crystal. -/
+theorem vacuum_inplane_c (box : Box K) (v : K) (p : V3 K) (hdet : M3.det box.vects ≠ 0)
+    (hdet' : M3.det (vacuumBox .c box v).vects ≠ 0) :
+    ((Box.cartToRel (vacuumBox .c box v) p).x - (Box.cartToRel box p).x) * box.vects.r0.x +
+      ((Box.cartToRel (vacuumBox .c box v) p).y - (Box.cartToRel box p).y) * box.vects.r1.x
+      = ((Box.cartToRel box p).z - (Box.cartToRel (vacuumBox .c box v) p).z) * box.vects.r2.x ∧
+    ((Box.cartToRel (vacuumBox .c box v) p).x - (Box.cartToRel box p).x) * box.vects.r0.y +
+      ((Box.cartToRel (vacuumBox .c box v) p).y - (Box.cartToRel box p).y) * box.vects.r1.y
+      = ((Box.cartToRel box p).z - (Box.cartToRel (vacuumBox .c box v) p).z) * box.vects.r2.y := by
+  have e1 := C05.relToCart_cartToRel box hdet p
+  have e2 := C05.relToCart_cartToRel (vacuumBox .c box v) hdet' p
+  generalize Box.cartToRel box p = s at e1 ⊢
+  generalize Box.cartToRel (vacuumBox .c box v) p = s' at e2 ⊢
+  obtain ⟨⟨⟨a0, a1, a2⟩, ⟨b0, b1, b2⟩, ⟨c0, c1, c2⟩⟩, ⟨o0, o1, o2⟩⟩ := box
+  obtain ⟨p0, p1, p2⟩ := p
+  obtain ⟨x, y, z⟩ := s
+  obtain ⟨x', y', z'⟩ := s'
+  simp only [Box.relToCart, M3.vecMul, C05.V3.add_def, vacuumBox, setDiag, cutIndex, unitV, C05.V3.sub_def, V3.smul,
+    V3.mk.injEq] at e1 e2
+  norm_num at e1 e2
+  obtain ⟨hx, hy, _⟩ := e1
+  obtain ⟨hx', hy', _⟩ := e2
+  constructor
+  · show (x' - x) * a0 + (y' - y) * b0 = (z - z') * c0
+    linear_combination hx' - hx
+  · show (x' - x) * a1 + (y' - y) * b1 = (z - z') * c1
+    linear_combination hy' - hy
+
 /-- `minimum_r` push: with `new = sqrt(r² - d₁² - d₂²)` (`sq·sq =` that radicand) the pushed
     separation `d + (new - d_cut)·ê_cut` has length exactly `r`. -/
 theorem push_restores_minimum_r (cut : Cut) (r sq : K) (d : V3 K) (hsq : sq * sq = pushRadicand cut r d) :
@@ -1732,5 +1816,13 @@ example : ((sfNew exObj .keep).toOption.map fun o =>
     (surfaceBase exObj (sfRun exObj o (exHist.take 2)).1 (exArgs 1 2 .none)).2.toBool) = some true := by decide +kernel
 example : ((sfNew exObj .keep).toOption.map fun o => (sfRun exObj o exHist).2.map Except.toBool)
     = some [true, false, true] := by decide +kernel
+
+/-- vacuum on a cell with a tilted cut vector: the hypotheses of `vacuum_rel_cut_c` / `vacuum_inplane_c` hold, and an
+    atom inside the cell (`31/32`) gets an in-plane relative coordinate above 1 (`33/32`) while its Cartesian position is unchanged. -/
+example : M3.det (⟨⟨2, 0, 0⟩, ⟨0, 2, 0⟩, ⟨1, 0, 2⟩⟩ : M3 ℚ) ≠ 0 ∧
+    M3.det (vacuumBox .c (⟨⟨⟨2, 0, 0⟩, ⟨0, 2, 0⟩, ⟨1, 0, 2⟩⟩, ⟨0, 0, 0⟩⟩ : Box ℚ) 2).vects ≠ 0 ∧
+    Box.cartToRel (⟨⟨⟨2, 0, 0⟩, ⟨0, 2, 0⟩, ⟨1, 0, 2⟩⟩, ⟨0, 0, 0⟩⟩ : Box ℚ) ⟨43 / 16, 0, 3 / 2⟩ = ⟨31 / 32, 0, 3 / 4⟩ ∧
+    Box.cartToRel (vacuumBox .c (⟨⟨⟨2, 0, 0⟩, ⟨0, 2, 0⟩, ⟨1, 0, 2⟩⟩, ⟨0, 0, 0⟩⟩ : Box ℚ) 2) ⟨43 / 16, 0, 3 / 2⟩
+      = ⟨33 / 32, 0, 5 / 8⟩ := by decide +kernel
 
 end Atomman.C14
